@@ -22,6 +22,8 @@ pub struct MonCfg {
     pub props: BTreeSet<String>,
     /// corruption configuration: validity judged against the PSBT's own prevouts, no liveness
     pub corruption: bool,
+    /// known findings (property, class prefix, detail substring, description): recorded, not raised
+    pub known: Vec<(String, String, Option<String>, String)>,
 }
 
 impl MonCfg {
@@ -29,7 +31,7 @@ impl MonCfg {
     pub fn only(p: &str) -> Self {
         let mut s = BTreeSet::new();
         s.insert(p.to_string());
-        MonCfg { props: s, corruption: false }
+        MonCfg { props: s, corruption: false, known: vec![] }
     }
 }
 
@@ -52,6 +54,10 @@ pub fn raise(w: &mut World, prop: &str, inv: &str, detail: String, actor: &str) 
 pub fn raise_class(w: &mut World, prop: &str, inv: &str, class: String, detail: String, actor: &str) {
     if !w.mon.on(prop) {
         w.stats.probe(&format!("suppressed:{}:{}", prop, inv));
+        return;
+    }
+    if let Some(k) = w.mon.known.iter().find(|k| k.0 == prop && class.starts_with(&k.1) && k.2.as_ref().map(|t| detail.contains(t)).unwrap_or(true)) {
+        *w.stats.known_hits.entry(format!("property={} {}", k.0, k.3)).or_insert(0) += 1;
         return;
     }
     w.violations.push(Violation { prop: prop.to_string(), inv: inv.to_string(), detail, time: w.now, seq: w.seq, actor: actor.to_string(), class });
@@ -355,7 +361,7 @@ fn probe_input(w: &mut World, actor: &str, psbt: &Psbt, i: usize) {
     if w.mon.on("C02") || w.mon.on("C07") || w.mon.on("C03") {
         crate::mon_ref::check_reference(w, actor, psbt, i, &produced, ok);
     }
-    if w.mon.on("C17") {
+    if w.mon.on("C17") || w.mon.on("C09") {
         crate::mon_plan::check_plan_vs_satisfier(w, actor, psbt, i, &produced, ok);
     }
 }
